@@ -43,8 +43,48 @@ def _nav_op(r, T, is_dt):
     return ["call", T, "nth_of", [u, n, _wd(r, allow_none=False)]]
 
 
+_GAPS = {}
+
+
+def _carried_gap_value(r):
+    """a DateTime (fold=0) whose time of day is skipped on another date of its month, quarter or
+    year - a date the navigation moves to (first day of the quarter, of its last month, the n-th
+    weekday): the time of day must be dropped before the date is moved."""
+    z = r.choice(gen_dt.MIDNIGHT_ZONES + gen_dt.DST_ZONES)
+    if z not in _GAPS:
+        gs = [(tzdb.us_to_fields((t + o0) * 10**6), o1 - o0) for t, o0, o1 in tzdb.transitions(z) if o1 > o0]
+        _GAPS[z] = (gs, [g for g in gs if g[0][2] == 1])
+    gs, first = _GAPS[z]
+    pick = first if (first and r.random() < 0.6) else gs
+    if not pick:
+        return None
+    w, width = r.choice(pick)
+    tod = tzdb.us_to_fields(tzdb.naive_us(w) + r.randrange(0, width) * 10**6 + r.choice([0, r.randrange(10**6)]))
+    if tod[:3] != w[:3]:
+        return None
+    y, m, d = w[:3]
+    k = r.random()
+    if k < 0.6:
+        m2 = (m - 1) // 3 * 3 + 1 + r.randrange(3)
+        d2 = r.randint(1, _cal.monthrange(y, m2)[1])
+    elif k < 0.8:
+        m2, d2 = m, r.randint(1, _cal.monthrange(y, m)[1])
+    else:
+        m2 = r.randint(1, 12)
+        d2 = min(d, _cal.monthrange(y, m2)[1])
+    f = [y, m2, d2] + tod[3:]
+    if tzdb.classify(z, f) != "unique":
+        return None
+    return {"$": "dt", "f": f, "tz": z, "fold": r.choice([0, 0, 0, 1])}
+
+
 def gen(rp, rw, tier):
     pool, meta = [], []
+    if rp.random() < 0.15:
+        s = _carried_gap_value(rp)
+        if s is not None:
+            pool.append(s)
+            meta.append("dt")
     for _ in range(rp.choice([1, 2, 2, 3])):
         if rp.random() < 0.4:
             pool.append(gen_dt.date_value(rp))
